@@ -59,7 +59,7 @@ CLAIMED = {
                 "numbers of darts ahead or behind) is refused with an error (C02_refusal, C02_refusal_sew) and a refused or failed call "
                 "changes nothing; removed darts are nobody's image. Tie: exhaustive WF 3-maps n<=3, glued-faces family, random and "
                 "polyhedra histories, composed transactions on the real CMap3 vs the model; WF and Mirror evaluated on the real map. Props/C02b.lean: the two extra shape predicates used by the 3-D face clauses of C03/C20 — Sided (a face is 3-linked as a whole) and NoSelfGlue — are NOT invariants under C02's guards alone (decide-checked counterexample histories) and ARE preserved under the additional guard 'a 1-link joins two darts that are both 3-linked or both 3-free' (C02b_history_preserves_all).",
-        "note": "The six *_core functions of components/betas.rs are RE-TRANSLATED from the source on every run (Gen/LinkCores.lean) and proved equal as programs to the link cores of the model (Props/C01Gen.lean); the rest of the model is hand-written. Trusted: Lean kernel + 3 standard axioms; hand-written model (Model/Ops3.lean). Defect D1/D1b (three_link accepted "
+        "note": "CMap3::one_link / one_unlink of dim3/links/one.rs are likewise re-translated (Gen/Links3.lean) and proved equal to oneLink3 / oneUnlink3 (Props/C02Gen.lean). The six *_core functions of components/betas.rs are RE-TRANSLATED from the source on every run (Gen/LinkCores.lean) and proved equal as programs to the link cores of the model (Props/C01Gen.lean); the rest of the model is hand-written. Trusted: Lean kernel + 3 standard axioms; hand-written model (Model/Ops3.lean). Defect D1/D1b (three_link accepted "
                 "non-mirrorable faces) found and repaired (243b216).",
         "design_ref": "DESIGN.md §7 C02, §13",
     },
